@@ -85,18 +85,18 @@ _NOTE = ("Trusted: Coq 8.16.1 kernel + vm_compute; the hand-written Gallina mode
 
 LEVELS = {
     "C01": {"text": "Theorems: every gated handler returns not-an-authority for any sender but the admin (self-removal excepted, only for a bonded validator that leaves a signer behind); through the tx wrapper the state is unchanged. Model tied to the app by history differential + twin execution; RPC census by Tie/Census.v.", "note": _NOTE, "technique": "Coq proof (case analysis on the handlers, tx-wrapper lemma) + differential testing against the real SimApp"},
-    "C02": {"text": "Block-boundary invariant of the x/staking+PoA model (one index entry per validator at its token power, last powers = bonded set, CometBFT's next set = last powers) proved preserved by every block under the stated environment hypotheses, cap not binding; model tied to the app by history differential; monitor compares the real ValidatorSet with the chain's queries after every block.", "note": _NOTE + " Partial: the cap-binding case is a known finding, not covered by the theorem.", "technique": "Coq proof by induction over histories of an inductive invariant + differential testing against the real SimApp"},
-    "C03": {"text": "Theorems: a successful SetPOAPower writes exactly the requested tokens/shares/delegation and re-keys exactly the target's index entry; frame lemma for every other validator; with the C02 invariant the next set reflects it.", "note": _NOTE, "technique": "Coq proof (gmap frame lemmas) + differential testing against the real SimApp"},
-    "C04": {"text": "Theorems: last-bonded guard; EndBlocker never meets a missing record / bad transition / foreign queue entry under the invariant; emitted updates have distinct keys and zero updates only for members, so CometBFT's rules accept them. Tied to the app by history differential incl. maturities; monitor = real FinalizeBlock errors + real UpdateWithChangeSet verdict.", "note": _NOTE + " Environment hypotheses H-time, H-alive, H-maxvals are explicit.", "technique": "Coq proof (loop invariant of ApplyAndReturnValidatorSetUpdates) + differential testing against the real SimApp and CometBFT's ValidatorSet"},
-    "C05": {"text": "Theorems: safe SetPower above height 1 succeeds only if 100*sum < 30*cached (uint64 arithmetic written out); every change adds |new - power held at that point|; BeginBlocker zeroes the sum and refreshes the total; failed txs roll back (C06); unsafe skips only the test.", "note": _NOTE, "technique": "Coq proof (lia over Z with explicit wrap) + differential testing with boundary powers against the real SimApp"},
+    "C02": {"text": "Theorems at every reachable, non-halted state (induction over the block list through every handler, BeginBlock slashing, both EndBlocker loops, maturity, genesis): CometBFT's next set = last validator powers keyed by consensus key; every member is an unjailed bonded validator at tokens/10^6 > 0 (no hypothesis on max_validators); when max_validators does not bind the set is exactly the unjailed validators with power; index exact and complete; consensus keys distinct. Tied to the app by history differential; monitor = real UpdateWithChangeSet set vs bonded+unjailed validators with the power query.", "note": _NOTE + " Partial: the cap-binding case is a known finding, not covered by the theorem.", "technique": "Coq proof by induction over histories of an inductive invariant + differential testing against the real SimApp"},
+    "C03": {"text": "Theorems: a successful SetPOAPower writes exactly the requested tokens/shares/delegation and re-keys exactly the target's index entry; frame lemma for every other validator; history level: the last power of every validator is the power of its tokens if it is not jailed (cap not binding), every update of a block belongs to a validator whose last power changes in that block and says what it becomes, hence only validators whose jailed flag or tokens changed in the block are mentioned. Monitors: SetPower reflected in the next set, removed stays out, updates only for targets/jailed/unjailed/cap, non-targets unchanged.", "note": _NOTE, "technique": "Coq proof (gmap frame lemmas) + differential testing against the real SimApp"},
+    "C04": {"text": "Theorems over all histories: chain invariant, unbonding-queue invariant and pool invariant hold in every reachable state; x/staking's EndBlocker returns no error of any kind; CometBFT never refuses the updates for a duplicate key, a negative power, the removal of a non-member, nor (if downtime leaves somebody: H-alive) an empty set; BeginBlock never fails if a block interval is shorter than the unbonding period (H-time); altogether no history halts except by CometBFT's total-power bound; last-bonded guard. Tied to the app by history differential incl. maturities; monitor = real FinalizeBlock errors + real UpdateWithChangeSet verdict.", "note": _NOTE + " Environment hypotheses H-time, H-alive, H-maxvals are explicit.", "technique": "Coq proof (loop invariant of ApplyAndReturnValidatorSetUpdates) + differential testing against the real SimApp and CometBFT's ValidatorSet"},
+    "C05": {"text": "Theorems: safe SetPower above height 1 succeeds only if 100*sum < 30*cached (uint64 arithmetic written out); every change adds |new - power held at that point|; BeginBlocker zeroes the sum and refreshes the total; failed txs roll back (C06); unsafe skips only the test; history level: LastTotalPower = sum of the last validator powers in every reachable state, and throughout a block the cached total is that sum as the previous block left it.", "note": _NOTE, "technique": "Coq proof (lia over Z with explicit wrap) + differential testing with boundary powers against the real SimApp"},
     "C06": {"text": "Theorem: a failing tx yields the pre-state or the pre-state with bumped sequences (enumerating ante rejection and every handler failure). Atomicity is BaseApp's: assumed in the model's deliver_tx and validated by twin execution with per-module store hashes.", "note": _NOTE + " Partial by nature: the rollback mechanism lives in the SDK.", "technique": "Coq proof over the model's tx wrapper + twin execution (translation validation of atomicity)"},
     "C07": {"text": "Theorems over message trees of unbounded depth/fan-out (nested induction): the staking filter rejects exactly the transactions containing a forbidden message through any carrier; tied to the running decorator by differential execution on random trees and to the app's registry by census.", "note": _NOTE, "technique": "Coq proof by nested induction over rose trees + differential testing of the model against the Go decorator"},
     "C08": {"text": "Same theorems for the withdraw-delegator-reward filter.", "note": _NOTE, "technique": "Coq proof by nested induction over rose trees + differential testing of the model against the Go decorator"},
     "C09": {"text": "Theorems: the commission decorator accepts iff every rate-setting message at any depth is in [floor,ceil], never panics, exempts genesis exactly when validation is off.", "note": _NOTE, "technique": "Coq proof (tree induction, lia over scaled decimals) + differential testing against the Go decorator"},
     "C10": {"text": "Theorems: create appends exactly the application, remove-pending deletes the first match, both preserve pairwise-distinct operators/consensus keys across pending and validators; monitor refines the pending query against the history's applications.", "note": _NOTE, "technique": "Coq proof (list/gmap invariants) + differential testing against the real SimApp"},
-    "C11": {"text": "Theorem: every PoA message ends with the bonded pool = bonded validators' tokens, not-bonded pool untouched, supply delta = pool delta; pool equalities after every block by the model differential; monitors: pools vs token sums, supply outside pools constant.", "note": _NOTE + " x/mint is not modelled (inflation 0 in the harness).", "technique": "Coq proof + differential testing against the real SimApp"},
+    "C11": {"text": "Theorems: every PoA message ends with the bonded pool = bonded validators' tokens, not-bonded pool untouched, supply delta = pool delta; in every reachable state (induction over histories incl. slashing, EndBlocker transfers, maturity) bonded pool = sum of tokens of Bonded validators and the not-bonded pool covers the others, so no transfer, burn or slash is ever short of funds. Monitors: pools vs token sums, supply outside pools constant.", "note": _NOTE + " x/mint is not modelled (inflation 0 in the harness).", "technique": "Coq proof + differential testing against the real SimApp"},
     "C12": {"text": "Theorem: a run cut at any commit boundary and continued from the persisted world equals the uncut run (the model has no hidden memory). That the code has none is validated: second node, never-queried node, node restarted from its database at random boundaries, byte-equal AppHash/results/updates.", "note": _NOTE + " Partial by nature: process memory and iteration order are runtime facts.", "technique": "Coq proof of run composition + restart/duplicate execution (translation validation of determinism)"},
-    "C13": {"text": "Theorems: SetPower on a jailed / non-bonded validator and removal of a non-bonded one fail cleanly; jailed validators own no index entry so EndBlocker never re-admits them; with the C02 invariant a jailed validator stays out of the set.", "note": _NOTE, "technique": "Coq proof + differential testing with downtime patterns against the real SimApp"},
+    "C13": {"text": "Theorems: SetPower on a jailed / non-bonded validator and removal of a non-bonded one fail cleanly; in every reachable state a jailed validator owns no index entry, has no last power and its key is absent from CometBFT's set (any max_validators); every member's power is its token power (tokens less slashes); the index is complete for unjailed validators with power, so an unjailed or re-powered validator is seen by the next EndBlocker; queue and records agree, slashes never lack funds. Monitors: jailed not in next set, jailed flag cleared only by a successful unjail, unjail power, decreases only with cause.", "note": _NOTE, "technique": "Coq proof + differential testing with downtime patterns against the real SimApp"},
     "C14": {"text": "Theorems over all 64-bit powers: accepted iff 10^6 <= p <= 2^63-1, exact token/share/power conversion, same-power rejection; float64 absolute difference exact below 2^53.", "note": _NOTE, "technique": "Coq proof (lia / Z.div over unbounded Z with explicit 64-bit casts) + differential testing"},
     "C15": {"text": "Theorem: poa Validate = stakingtypes Validate for any value >= msd >= 1 (incl. error and crash cases); rule set spelled out; three-way differential against both Go implementations.", "note": _NOTE, "technique": "Coq proof of rule equivalence + three-way differential testing"},
     "C16": {"text": "Theorems: a successful update sets exactly the six fields and nothing else; invalid tuples (x/staking's Validate) are refused; validity spelled out.", "note": _NOTE, "technique": "Coq proof + differential testing against stakingtypes.Params.Validate and the real SimApp"},
